@@ -335,6 +335,19 @@ Proof.
     assert (val m <> 1) by (intros E1; rewrite E1 in Hodd; discriminate). lia.
 Qed.
 
+(** odd modulus: the Montgomery path only (no big multiplication involved) *)
+Theorem umodpow_odd_spec p x e m : modpow_ok p = true -> canon x -> canon e -> canon m ->
+  Z.odd (val m) = true -> Z.of_nat (length m) < 2 ^ 57 ->
+  umodpow p x e m = Ret (enc (val x ^ val e mod val m)).
+Proof.
+  clear Hmul.
+  intros Hp Cx Ce Cm Hodd Hlen. destruct (modpow_ok_inv p Hp) as (_ & _ & _ & _ & _ & _ & Eodd & _).
+  unfold Modpow.umodpow. destruct m as [|m0 m'] eqn:Em; [discriminate|]. rewrite <- Em in *.
+  replace (u_is_zero m) with false by (rewrite Em; reflexivity). cbn [negb assert_ bind].
+  rewrite Eodd. assert (Eo : u_is_odd m = Z.odd (val m)) by (rewrite val_odd, Em; reflexivity).
+  rewrite Eo, Hodd. cbn [Bool.eqb]. apply monty_modpow_spec; auto.
+Qed.
+
 (** ** BigUint::modinv *)
 Lemma u_is_zero_enc v : 0 <= v -> u_is_zero (enc v) = (v =? 0).
 Proof.
@@ -481,6 +494,7 @@ Lemma place_sign_canon (s : sign) (flip : bool) a b mg r :
   place_sign ap canon_arms a b mg (enc r) =
   Ret (ienc (sign_z s * (if flip then val mg - r else r))).
 Proof.
+  clear Hmul Hdivrem.
   intros El Cm Hr. unfold place_sign. rewrite El. destruct flip.
   - rewrite usub_ref_val_spec by (auto using enc_canon). rewrite enc_val by lia.
     replace (val mg <? r) with false by (symmetry; apply Z.ltb_ge; lia). cbn [bind].
@@ -488,22 +502,24 @@ Proof.
   - cbn [bind]. rewrite from_biguint_ienc by apply enc_canon. rewrite enc_val by lia. reflexivity.
 Qed.
 
-Theorem imodpow_spec p x e m : modpow_ok p = true -> icanon x -> icanon e -> icanon m ->
-  Z.of_nat (length (mag m)) < 2 ^ 57 ->
+Lemma imodpow_core p x e m : modpow_ok p = true -> icanon x -> icanon e -> icanon m ->
+  (0 <= ival e -> ival m <> 0 ->
+   umodpow p (mag x) (mag e) (mag m) =
+   Ret (enc (val (mag x) ^ val (mag e) mod val (mag m)))) ->
   imodpow p x e m =
   if ival e <? 0 then Panic NegExponent
   else if ival m =? 0 then Panic ZeroModulus
   else Ret (ienc (ival x ^ ival e mod ival m)).
 Proof.
-  intros Hp Hx He Hm Hlen. destruct (modpow_ok_inv p Hp) as (_ & _ & _ & _ & _ & _ & _ & Earms & _).
+  clear Hmul Hdivrem.
+  intros Hp Hx He Hm Hum. destruct (modpow_ok_inv p Hp) as (_ & _ & _ & _ & _ & _ & _ & Earms & _).
   destruct (icanon_facts x Hx) as (Cx & Vx & Nx & _).
   destruct (icanon_facts e He) as (Ce & Ve & Ne & _).
   destruct (icanon_facts m Hm) as (Cm & Vm & Nm & Zm).
   unfold Modpow.imodpow. rewrite Ne, Zm.
   destruct (Z.ltb_spec (ival e) 0) as [HE|HE]; [reflexivity|]. cbn [negb assert_ bind].
   destruct (Z.eqb_spec (ival m) 0) as [HM0|HM0]; [reflexivity|]. cbn [negb assert_ bind].
-  rewrite umodpow_spec by auto. rewrite Vx, Ve, Vm, (Z.abs_eq (ival e)) by lia.
-  replace (Z.abs (ival m) =? 0) with false by (symmetry; apply Z.eqb_neq; lia). cbn [bind].
+  rewrite Hum by auto. rewrite Vx, Ve, Vm, (Z.abs_eq (ival e)) by lia. cbn [bind].
   set (X := ival x) in *. set (E := ival e) in *. set (Mv := ival m) in *.
   set (P := Z.abs X ^ E). assert (HP : 0 <= P) by (apply Z.pow_nonneg; lia).
   pose proof (Z.mod_pos_bound P (Z.abs Mv) ltac:(lia)) as Hr. set (r := P mod Z.abs Mv) in *.
@@ -535,6 +551,34 @@ Proof.
     + set (n := Z.abs Mv) in *. assert (EM : Mv = - n) by lia. rewrite EM.
       rewrite Z.mod_opp_r_nz by (fold r; lia). fold r. lia.
     + set (n := Z.abs Mv) in *. assert (EM : Mv = n) by lia. rewrite EM. fold r. lia.
+Qed.
+
+Theorem imodpow_spec p x e m : modpow_ok p = true -> icanon x -> icanon e -> icanon m ->
+  Z.of_nat (length (mag m)) < 2 ^ 57 ->
+  imodpow p x e m =
+  if ival e <? 0 then Panic NegExponent
+  else if ival m =? 0 then Panic ZeroModulus
+  else Ret (ienc (ival x ^ ival e mod ival m)).
+Proof.
+  intros Hp Hx He Hm Hlen. apply imodpow_core; auto. intros _ HM0.
+  destruct (icanon_facts m Hm) as (Cm & Vm & _).
+  rewrite umodpow_spec by (auto; apply Hx || apply He).
+  replace (val (mag m) =? 0) with false by (symmetry; apply Z.eqb_neq; lia). reflexivity.
+Qed.
+
+(** odd |m|: closed under the division spec alone *)
+Theorem imodpow_odd_spec p x e m : modpow_ok p = true -> icanon x -> icanon e -> icanon m ->
+  Z.odd (ival m) = true -> Z.of_nat (length (mag m)) < 2 ^ 57 ->
+  imodpow p x e m =
+  if ival e <? 0 then Panic NegExponent else Ret (ienc (ival x ^ ival e mod ival m)).
+Proof.
+  clear Hmul.
+  intros Hp Hx He Hm Hodd Hlen. rewrite imodpow_core; auto.
+  - replace (ival m =? 0) with false; [reflexivity|].
+    symmetry; apply Z.eqb_neq. intros E0. rewrite E0 in Hodd. discriminate.
+  - intros _ _. destruct (icanon_facts m Hm) as (Cm & Vm & _).
+    apply umodpow_odd_spec; auto; try apply Hx; try apply He.
+    rewrite Vm. destruct (Z.abs_spec (ival m)) as [[_ ->]|[_ ->]]; [exact Hodd|rewrite Z.odd_opp; exact Hodd].
 Qed.
 
 Theorem imodinv_rel p x m : modpow_ok p = true -> icanon x -> icanon m -> ival m <> 0 ->
